@@ -158,7 +158,10 @@ def addmember (isUnion pack : Bool) (st : St) (d : Decl) : Except Err (St × Opt
       .ok (⟨if st.size < d.ty.size then d.ty.size else st.size, updAlign true st.align align, flex,
             st.bits⟩, some m)
     else
-      .ok (⟨st.size, st.align, flex, st.bits⟩, none)
+      -- `else if (t->size < (width + 7) / 8) t->size = (width + 7) / 8;`: an unnamed bit-field
+      -- occupies storage in a union as well (no `struct member`, no alignment)
+      let bytes := u64 (width + 7) / 8
+      .ok (⟨if st.size < bytes then bytes else st.size, st.align, flex, st.bits⟩, none)
 
 /-- the `do structdecl(s, &b); while (tok.kind != TRBRACE);` loop, as a fold over the calls of
 `addmember` in source order -/
